@@ -595,6 +595,12 @@ class Sym:
         cn = call_name(c)
         args = tuple(self.expr(a, env, depth) for a in c.args)
         kws = tuple(sorted((k.arg or "**", self.expr(k.value, env, depth)) for k in c.keywords))
+        # call of a local function / lambda whose body is known: substitute the arguments
+        if isinstance(c.func, ast.Name) and c.func.id in env and env[c.func.id][0] == "fn" and not kws and len(env[c.func.id][1]) == len(args):
+            _t, ps, body = env[c.func.id]
+            for p_, a_ in zip(ps, args):
+                body = _subst(body, p_, a_)
+            return body
         if cn == "sum" and len(args) >= 1 and args[0][0] == "comp":
             comp = args[0]
             start = args[1] if len(args) > 1 else ("const", 0)
